@@ -6,6 +6,22 @@ ALL = ["C%02d" % i for i in range(1, 21)]
 
 # id -> (category, level text, level note, technique, design ref)
 CHECKS = {
+ "C03": ("exploration",
+   "Invariant walker at the API boundary: every *decode.Value returned by decode.Decode for the sample corpus under its own formats, the probe and forced decoding, and for a PRNG slice of the systematic truncation/corruption family (partial trees), is walked and checked for I1..I6 (range inside buffer, children inside parent, unique names + ByName, struct order, array indices, parent links). Jobs run in isolated worker processes.",
+   "Trusts the harness walker; roots' hybrid Range (Start in parent buffer, Len own length) follows decode.go. The generated-decoder reference interpreter of DESIGN §3 C03 is not built yet, so 'ranges are exactly the bits each field read' is only checked through C04/C05 content comparisons.",
+   "runtime monitor: structural-invariant walker over decode trees of corpus + mutation family", "DESIGN.md §3 C03"),
+ "C04": ("exploration",
+   "Part 1 enumerates every ordered list of <=3 ranges over buffers of 0..8 bits (and <=4 over 0..5) plus random sets and compares the real ranges.Gaps with a bitmap; part 2 checks every gap-filled decode scope of corpus/mutated/forced decodes: leaves+gaps cover the window, own gaps overlap no other leaf, gap content equals the buffer bits.",
+   "Part 1 is exhaustive only for the stated small scope. For *Len/*Range sub-decodes the window is not recorded in the tree, so only holes inside the scope's own range are detectable there.",
+   "runtime monitor: exhaustive small-scope differential vs bitmap reference + coverage invariant over decode trees", "DESIGN.md §3 C04"),
+ "C05": ("exploration",
+   "For up to 400 values per tree (all roots, gaps, unaligned, errored + PRNG sample) of corpus/mutated/forced decodes done through the jq layer, tobits/tobytes results are read back as bit strings and compared with the input file bits (top-level buffer) or the nested root's reader; every bits_format renderer is decoded back; raw CLI stdout of tobytes is compared with the input.",
+   "Nested-buffer values are compared against the nested root's own reader (its agreement with independent decompressors is C15).",
+   "runtime monitor: differential check of jq binaries against the input bytes", "DESIGN.md §3 C05"),
+ "C20": ("exploration",
+   "Layer 1 executes every sequence of push/finish/interrupt/stop (length<=7, depth<=4 quick) on the real ctxstack with a handshaked trigger and compares every context with a stack model after every operation; layer 2 records randomized concurrent evaluator/interrupter/observer histories at the client boundary and checks them for linearizability against the same model with porcupine, all under the Go race detector whose reports are violations.",
+   "Precondition from fq's usage: a closure implicitly finished by an outer finish is not invoked later. Race detector only sees executed interleavings.",
+   "race detector + exhaustive sequential model check of executions + porcupine linearizability of recorded histories", "DESIGN.md §3 C20"),
  "C01": ("exploration",
    "History + executable model: random reader compositions (13 reader kinds incl. real files and fq's open stack) are built in lock-step with a reference bit string; every read/seek/clone/byte-view/writer call of 60k (quick) / 3M (thorough) histories plus exhaustive Read64/Write64 and exhaustive (offset,length) sweeps over short buffers is checked online. Holds on the executions observed, nothing more.",
    "Trusts the harness's own bit-string model (independent of bitio.Read64/Write64). Negative seek targets/read offsets and seek-from-end on padded byte views are outside the domain.",
